@@ -13,8 +13,8 @@ RULE = (
     "reader task: HeartBtInt hb in [1, 120] s; phase of the last inbound frame relative to the 1 s watchdog tick in [0, 1); "
     "peer script in {silent from t0; periodic traffic with period 0.3/0.6/0.9/1.1/1.7 x hb (valid Heartbeats or application "
     "messages); burst then silence; answers every TestRequest after a delay in [0, 2.2 hb] with the right / a wrong / a "
-    "numerically lower / non-numeric / no TestReqID, optionally sending an application message while its answer is under way or with one of its frames lost right before the answer; sends its own TestRequests "
-    "(ids also base64-like with '=' inside; optionally every second one preceded by a lost frame); reveals a gap and replays it slowly but steadily (one PossDup message every 0.3-0.8 hb)}; the scripted "
+    "numerically lower / non-numeric / no TestReqID / (from the second TestRequest on) the id of the previous TestRequest, optionally sending an application message while its answer is under way or with one of its frames lost right before the answer; answers the first 1-3 TestRequests and is dead from then on; sends its own TestRequests "
+    "(ids text, numbers, '0', '00', base64-like with '=' inside; optionally every second one preceded by a lost frame); reveals a gap and replays it slowly but steadily (one PossDup message every 0.3-0.8 hb)}; the scripted "
     "peer answers the endpoint's ResendRequests with a GapFill; the scenario runs on the first or on the second connection of the same object; optional own outbound application traffic. Oracle (tolerances: "
     "tick 1 s, TestReqID truncation 1 s): silent peer -> TestRequest within (hb-1, hb+1] s of the last inbound frame, "
     "disconnected no later than 3 hb + 3 s after it and not before 2 hb - 1 s after the TestRequest; peer with period <= hb "
@@ -86,6 +86,17 @@ def run_scenario(acc, sc):
             tid = ref_get(p, 112)
             trs.append((loop.time(), tid))
             kind = script[0]
+            if kind == "answer-then-die":
+                # the peer answers the first n TestRequests correctly and is dead from then on
+                if state["answers"] + state.get("scheduled", 0) < script[2]:
+                    state["scheduled"] = state.get("scheduled", 0) + 1
+
+                    def ans(tid=tid):
+                        state["scheduled"] -= 1
+                        state["answers"] += 1
+                        state["t_last_answer"] = loop.time()
+                        feed("0", [(112, tid)])
+                    loop.call_later(script[1] * hb, ans)
             if kind == "answer":
                 delay_f, idkind = script[1], script[2]
                 d = delay_f * hb
@@ -93,8 +104,12 @@ def run_scenario(acc, sc):
                 def answer(tid=tid):
                     if len(script) > 4 and script[4]:
                         state["seq"] += 1  # a frame of the peer was lost right before its answer
-                    if idkind == "right":
+                    if idkind == "right" or (idkind == "previous" and len(trs) < 2):
                         feed("0", [(112, tid)])
+                    elif idkind == "previous":
+                        # the id of the TestRequest before this one (answered correctly at the time): a wrong id now
+                        state.setdefault("t_prev_answer", loop.time())
+                        feed("0", [(112, trs[-2][1])])
                     elif idkind == "wrong":
                         feed("0", [(112, str(int(tid) + 7) if tid and tid.isdigit() else "123")])
                     elif idkind == "wrong-low":
@@ -139,7 +154,8 @@ def run_scenario(acc, sc):
                 def tr(k=k):
                     if lossy and k % 2 == 0:
                         state["seq"] += 1  # the frame before this TestRequest was lost
-                    tid = f"PEER-{k}" if k % 3 else f"cGVlcg{k}=="  # every third id looks like base64 (has '=' in the value)
+                    # ids: text, base64-like (with '=' inside), plain numbers, and the falsy-looking "0" / "00"
+                    tid = [f"PEER-{k}", f"cGVlcg{k}==", str(k), "0", f"PEER-{k}", "00", f"{k}.0"][k % 7]
                     state["sent_tr_ids"].append(tid)
                     feed("1", [(112, tid)])
                 loop.call_later(k * p, tr)
@@ -231,6 +247,36 @@ def run_scenario(acc, sc):
                     bad(f"wrong-id/disconnect-time/{idkind}", f"wrong TestReqID at t0+{t_ans - t0:.2f}, disconnected at t0+{t_disc - t0:.2f}")
                 if not any(abs(t - t_ans) < 1e-3 for t in logouts):
                     bad(f"wrong-id/no-logout/{idkind}", f"no Logout written when the wrong TestReqID arrived (t0+{t_ans - t0:.2f}); logouts at {[round(t - t0, 2) for t in logouts]}")
+            elif idkind == "previous" and d <= hb - 1.5 and len(trs) >= 2 and trs[1][1] != trs[0][1]:
+                t_ans = trs[1][0] + d
+                if t_disc is None:
+                    bad("wrong-id/not-disconnected/previous", f"second TestRequest {trs[1][1]!r} answered with the id of the first {trs[0][1]!r} at t0+{t_ans - t0:.2f}: endpoint still {ep.connection_state.name}")
+                elif abs(t_disc - t_ans) > 1e-3:
+                    bad("wrong-id/disconnect-time/previous", f"wrong (previous) TestReqID at t0+{t_ans - t0:.2f}, disconnected at t0+{t_disc - t0:.2f}")
+                if not any(abs(t - t_ans) < 1e-3 for t in logouts):
+                    bad("wrong-id/no-logout/previous", f"no Logout written when the previous TestReqID arrived (t0+{t_ans - t0:.2f}); logouts at {[round(t - t0, 2) for t in logouts]}")
+        elif kind == "answer-then-die":
+            n_ans = script[2]
+            d = script[1] * hb
+            if d <= hb - 1.5 and len(trs) >= n_ans and state["answers"] == n_ans:
+                t_last = state["t_last_answer"]
+                later = [t for t, _ in trs if t > t_last + eps]
+                if not later:
+                    bad("silent/no-testrequest", f"peer answered {n_ans} TestRequest(s) and is silent since t0+{t_last - t0:.2f}: no further TestRequest in {horizon} s")
+                else:
+                    dt = later[0] - t_last
+                    if not (hb - 1 - eps < dt <= hb + 1 + eps):
+                        bad("silent/testrequest-timing/after-an-answered-one", f"TestRequest {dt:.2f} s after the last inbound frame (the answer to TestRequest #{n_ans}), expected in ({hb - 1}, {hb + 1}]")
+                    if len(later) > 1:
+                        bad("two-testrequests-outstanding", f"{len(later)} TestRequests written after the peer died: at {[round(t - t0, 2) for t in later]}")
+                    if t_disc is None:
+                        if t_last + 3 * hb + 3 < t0 + horizon - 1:
+                            bad("silent/not-disconnected", f"peer dead since t0+{t_last - t0:.2f}: still {ep.connection_state.name} after {horizon} s")
+                    else:
+                        if t_disc - t_last > 3 * hb + 3 + eps:
+                            bad("silent/disconnect-too-late/after-an-answered-one", f"disconnected {t_disc - t_last:.2f} s after the last inbound frame (> 3 hb + 3)")
+                        if t_disc - later[0] < 2 * hb - 1 - eps:
+                            bad("silent/disconnect-too-early", f"disconnected {t_disc - later[0]:.2f} s after the TestRequest (< 2 hb - 1)")
         elif kind == "slow-replay":
             until = state["replay_until"]
             gap_frames = script[2] * hb
@@ -273,6 +319,8 @@ script = st.one_of(
     st.tuples(st.just("answer"), st.sampled_from([0.0, 0.5, 0.9, 1.5]), st.just("right"), st.none(), st.just(True)),
     st.tuples(st.just("peer-testreq"), st.sampled_from([0.3, 0.6, 0.9]), st.just(True)),
     st.tuples(st.just("slow-replay"), st.integers(3, 8), st.sampled_from([0.3, 0.5, 0.8])),
+    st.tuples(st.just("answer"), st.sampled_from([0.0, 0.1, 0.3]), st.just("previous")),
+    st.tuples(st.just("answer-then-die"), st.sampled_from([0.0, 0.1, 0.3]), st.integers(1, 3)),
 )
 scenario = st.fixed_dictionaries({"role": st.sampled_from(["acceptor", "initiator"]), "hb": hbs, "phase": st.floats(0, 0.999), "script": script,
                                   "own_traffic": st.sampled_from([False, False, False, True]), "second": st.sampled_from([False, False, True])})
@@ -288,7 +336,8 @@ def grid(acc, role):
         for phase in (0.0, 0.37, 0.99):
             for sc in ([("silent",)] + [("periodic", f, "0") for f in (0.3, 0.9, 1.1)] + [("answer", d, k) for d in (0.0, 0.9, 1.9) for k in ("right", "wrong", "wrong-low", "missing")]
                        + [("peer-testreq", 0.6)] + [("burst", 3, 1.0)] + [("answer", 1.5, "right", 0.3), ("answer", 1.9, "right", 0.6)]
-                       + [("answer", 0.5, "right", None, True), ("peer-testreq", 0.6, True), ("slow-replay", 6, 0.5)]):
+                       + [("answer", 0.5, "right", None, True), ("peer-testreq", 0.6, True), ("slow-replay", 6, 0.5)]
+                       + [("answer", 0.1, "previous"), ("answer-then-die", 0.0, 1), ("answer-then-die", 0.1, 2)]):
                 run_scenario(acc, {"role": role, "hb": hb, "phase": phase, "script": sc, "own_traffic": False})
             for sc in [("silent",), ("answer", 0.9, "right"), ("periodic", 0.3, "0")]:
                 run_scenario(acc, {"role": role, "hb": hb, "phase": phase, "script": sc, "own_traffic": False, "second": True})
